@@ -469,6 +469,7 @@ def gen_packets(ctx: Ctx, pfx: bytes, wide: bool):
 
 async def open_socket_for_gate(env: Env, cid=900):
     """open a socket through the real path: on_data from the hop's own address, then both transports"""
+    env.set_flags([env.F_BT, env.F_IPV8])
     es = await env.join(cid, "10.9.9.9", 7000)
     if es is None:
         raise InfraError("on_create did not create an exit socket for the gate tests")
@@ -862,7 +863,7 @@ async def run_history(ctx: Ctx, env: Env, h, fixed_events=None):
         es = await env.join(s["cid"], s["ip"], s["port"], s.get("known"))
         await env.drain()
         if es is None:          # refused by on_create's guards (no peer flags, circuit id in use): state must be unchanged
-            ctx.count("B:join:refused")
+            ctx.count("B:join:refused:" + ("no-peer-flags" if not env.ov.settings.peer_flags else "circuit-id-in-use"))
             env.last_join_created = False
             old = sockobj.get(s["cid"])
             return (f"join {hx(s['ip'].encode())} {s['port']} {s['cid']}",
@@ -879,6 +880,7 @@ async def run_history(ctx: Ctx, env: Env, h, fixed_events=None):
                                            "known-at-other-ip"))
         sockobj[s["cid"]] = es
         env.last_join_created = True
+        ctx.count("B:join:accepted")
         return (f"join {hx(s['ip'].encode())} {s['port']} {s['cid']}",
                 "- | en=%d t4=%d t6=%d q=%d p=0" % (es.enabled, bool(es.transport_ipv4), bool(es.transport_ipv6), len(es.queue)))
     for s0 in initial:
@@ -1074,7 +1076,8 @@ async def run_history(ctx: Ctx, env: Env, h, fixed_events=None):
             p_ok = spec_allowed(exit_bt, exit_ipv8, env.pfx, bytes.fromhex(e["data"]))
             if own:
                 br = "own-circuit:" + ("delivered-to-exit-message-handler" if "handler" in kinds else
-                                        "delivered" if "loc" in kinds else
+                                        "delivered:" + {1: "other-overlay(TunnelEndpoint)", 2: "raw-data"}.get(
+                                            [x[2] for x in new if x[0] == "loc"][0], "?") if "loc" in kinds else
                                         "dropped:" + e["pkind"] if e.get("pkind", "").startswith("nested-") else
                                         "dropped(no TunnelEndpoint)")
             elif dnull:
@@ -1088,7 +1091,7 @@ async def run_history(ctx: Ctx, env: Env, h, fixed_events=None):
             elif "resolve" in kinds:
                 br = "resolution-started"
             elif "emit" in kinds:
-                br = "emitted"
+                br = "emitted:v%d-transport" % [x[2] for x in new if x[0] == "emit"][0]
             elif e["dest"][0] == "d":
                 br = "domain:other"
             else:
@@ -1096,12 +1099,13 @@ async def run_history(ctx: Ctx, env: Env, h, fixed_events=None):
             ctx.count("B:branch:data:" + br)
         elif e["ev"] == "outside":
             p_ok = spec_allowed(exit_bt, exit_ipv8, env.pfx, bytes.fromhex(e["data"]))
-            br = "tunnelled" if "tunnel" in kinds else "drop:ipv4-mapped-source" if e["host"].startswith("::ffff:") else \
+            br = "tunnelled:v%d-source" % e["fam"] if "tunnel" in kinds else "drop:ipv4-mapped-source" if e["host"].startswith("::ffff:") else \
                 "drop:policy" if not p_ok else "other"
             ctx.count("B:branch:outside:" + br)
         elif e["ev"] == "resolved":
             first = ([x for x in minfos if x[0] == "4"] or minfos or [None])[0]
-            br = "emitted" if "emit" in kinds else "no-address" if not minfos else \
+            br = "emitted:picked-" + ("ipv4" if first and first[0] == "4" else "ipv6") if "emit" in kinds else \
+                "no-address:" + ("lookup-failed" if infos == "fail" else "empty-list") if not minfos else \
                 "queued" if len(sockobj[cid].queue) > qlen_before.get(cid, 0) else \
                 "dropped:null-address-after-resolution" if first and first[1] == "0.0.0.0" and resolved_port == 0 else \
                 "dropped(policy or full queue)"
@@ -1109,6 +1113,8 @@ async def run_history(ctx: Ctx, env: Env, h, fixed_events=None):
         elif e["ev"] == "open":
             ctx.count("B:branch:open%d:%s" % (e["fam"], "flush-emitted" if "emit" in kinds else
                                               "flush-dropped-all" if e["fam"] == 6 and qlen_before.get(cid) else "nothing-queued"))
+            if e["fam"] == 6 and any(x[0] == "emit" and x[2] == 6 for x in new):
+                ctx.count("B:branch:open6:flush-emitted-through-v6-transport")
         # ---- canonical reply, same shape as the driver's ----
         if e["ev"] == "peer-moves":
             continue                      # not an event of the model: hop addresses are immutable there
@@ -1250,6 +1256,111 @@ def run_opening_grid(ctx: Ctx, env: Env, use_model: bool, nested_only: bool = Fa
 
 
 # ---- entry points --------------------------------------------------------------------------------------------------------
+# every branch of the hand-written model definitions (and of the translated trees) that the design lists; a quick run in which one
+# of them is never taken on the REAL code is not a pass: exit 2 (unless the run already has a verdict to report)
+REQUIRED_BRANCHES = [
+    # TunnelCommunity.on_data dispatch
+    "B:branch:data:own-circuit:delivered-to-exit-message-handler", "B:branch:data:own-circuit:delivered:other-overlay(TunnelEndpoint)",
+    "B:branch:data:own-circuit:delivered:raw-data", "B:branch:data:own-circuit:dropped(no TunnelEndpoint)",
+    "B:branch:data:own-circuit:dropped:nested-circuit-cell", "B:branch:data:own-circuit:dropped:nested-data",
+    "B:branch:data:drop:null-destination",
+    # TunnelCommunity.exit_data
+    "B:branch:data:drop:unknown-circuit", "B:branch:data:drop:first-cell-from-foreign-ip", "B:socket-opened",
+    # TunnelExitSocket.sendto
+    "B:branch:data:drop:policy", "B:branch:data:drop:policy(socket just enabled)", "B:branch:data:resolution-started",
+    "B:branch:data:queued", "B:branch:data:queued:queue-full(oldest dropped)", "B:branch:data:emitted:v4-transport",
+    "B:branch:data:emitted:v6-transport",
+    # enable / create_transports (two-stage opening, flush through sendto)
+    "B:branch:open4:nothing-queued", "B:branch:open6:nothing-queued", "B:branch:open6:flush-emitted", "B:branch:open6:flush-dropped-all",
+    "B:branch:open6:flush-emitted-through-v6-transport",
+    # resolve / on_address (pickAddr, re-entry into sendto)
+    "B:branch:resolved:emitted:picked-ipv4", "B:branch:resolved:emitted:picked-ipv6", "B:branch:resolved:queued",
+    "B:branch:resolved:no-address:lookup-failed", "B:branch:resolved:no-address:empty-list",
+    "B:branch:resolved:dropped:null-address-after-resolution", "B:branch:resolved:dropped(policy or full queue)",
+    "B:resolution:6+4",
+    # datagram_received_ipv4/_ipv6 + datagram_received
+    "B:branch:outside:tunnelled:v4-source", "B:branch:outside:tunnelled:v6-source", "B:branch:outside:drop:ipv4-mapped-source",
+    "B:branch:outside:drop:policy",
+    # on_create / join_circuit
+    "B:join:accepted", "B:join:refused:circuit-id-in-use", "B:join:refused:no-peer-flags",
+    "B:join:creator-key:known-at-other-ip", "B:peer-moves:network-peer-updated",
+]
+
+
+def run_branch_grid(ctx: Ctx, env: Env, use_model: bool):
+    """deterministic histories that take every branch listed in REQUIRED_BRANCHES at least once, whatever the seed"""
+    ok_p, bad_p = b"d1:ad2:id20:abcdefghij0123456789e", b"\x7f\x55junk-that-is-neither-bt-nor-ipv8"
+    hop = "10.0.0.1"
+    S = {"cid": 77, "ip": hop, "port": 5000}
+
+    def cell(dest, p=ok_p, src=(hop, 5000), cid=77):
+        return {"ev": "data", "src": list(src), "cid": cid, "dest": list(dest), "data": p.hex(), "pkind": "grid"}
+    v4, v6, dom = ("4", "93.184.216.34", 6881), ("6", "2001:db8::1", 6881), ("d", "tracker.example.org", 6969)
+    o4, o6 = {"ev": "open", "cid": 77, "fam": 4}, {"ev": "open", "cid": 77, "fam": 6}
+
+    def res(infos, idx=0):
+        return {"ev": "resolved", "cid": 77, "idx": idx, "infos": infos}
+
+    def outside(fam, host, p=ok_p):
+        return {"ev": "outside", "cid": 77, "fam": fam, "host": host, "port": 53, "data": p.hex()}
+    other_overlay = b"\x00\x02" + b"\x42" * 20 + b"\x05payload"
+    exit_msg = env.pfx + bytes([env.EXIT_MSG]) + b"\x00" * 8
+    ping = env.pfx + b"\x06" + b"\x00" * 8
+    circ = {"cid": 555, "ip": "192.0.2.55", "port": 4000, "ctype": "DATA"}
+    own = lambda p: cell(("4", "0.0.0.0", 0), p, ("192.0.2.55", 4000), 555)  # noqa: E731
+    cases = [
+        ("queue-then-flush", [S], [], False, [cell(v4), cell(v6), o4, o6, cell(v6), cell(v4)]),
+        ("flush-after-flags-restricted", [S], [], False, [cell(v4), o4, {"ev": "flags", "flags": [env.F_RELAY]}, o6]),
+        ("queue-full", [S], [], False, [cell(v4)] * 12),
+        ("resolution", [S], [], False, [cell(v4), o4, o6, cell(dom), res([["6", "2001:db8::2"], ["4", "198.51.100.1"]]), cell(dom),
+                                        res([["6", "2001:db8::2"]]), cell(("d", "router.example", 0)), res([["4", "0.0.0.0"]]),
+                                        cell(dom), res("fail"), cell(dom), res([]), cell(dom),
+                                        {"ev": "flags", "flags": [env.F_RELAY]}, res([["4", "198.51.100.1"]])]),
+        ("resolution-before-open", [S], [], False, [cell(dom), res([["4", "198.51.100.1"]])]),
+        ("outside", [S], [], False, [cell(v4), o4, o6, outside(4, "8.8.8.8"), outside(6, "2001:db8::1"), outside(6, "::ffff:1.2.3.4"),
+                                     outside(4, "8.8.8.8", bad_p)]),
+        ("exit-data-drops", [S], [], False, [cell(v4, cid=4242), cell(v4, src=("10.0.0.9", 5000)), cell(("4", "0.0.0.0", 0)),
+                                             cell(v4, bad_p), cell(v4, bad_p)]),
+        ("own-circuit", [S], [circ], False, [own(exit_msg), own(ping), own(other_overlay), own(b"\xffraw bytes")]),
+        ("own-circuit-tunnel-endpoint", [S], [circ], True, [own(other_overlay)]),
+        ("own-circuit-e2e", [S], [dict(circ, ctype="RP_SEEDER")], False, [own(other_overlay)]),
+        ("creator-peer-moves", [dict(S, known=[["10.0.0.9", 5000]])], [], False,
+         [{"ev": "peer-moves", "cid": 77, "ip": "fd00::99", "port": 1}, cell(v4, src=("fd00::99", 1)), cell(v4, src=("10.0.0.9", 5000)),
+          cell(v4), o4, o6]),
+        ("creates", [S], [circ], False, [{"ev": "join", "cid": 77, "ip": "10.0.0.2", "port": 5000, "known": None},
+                                         {"ev": "join", "cid": 555, "ip": "10.0.0.2", "port": 5000, "known": None},
+                                         {"ev": "flags", "flags": []},
+                                         {"ev": "join", "cid": 78, "ip": "10.0.0.2", "port": 5000, "known": None}]),
+    ]
+    all_lines, all_impl, owners = [], [], []
+    for name, socks, circs, tep, evs in cases:
+        h = {"flags": [env.F_RELAY, env.F_BT], "socks": [dict(x) for x in socks], "circs": [dict(x) for x in circs],
+             "tunnel_ep": tep, "style": "grid", "n": len(evs), "events": []}
+        lines, impl, _ = env.loop.run_until_complete(run_history(ctx, env, h, fixed_events=[dict(x) for x in evs]))
+        ctx.count("G:branch-grid:" + name)
+        ctx.case(("G", "branch", name), nontrivial=True, n=len(lines) - 1)
+        all_lines += lines
+        all_impl += impl
+        owners += [h] * len(lines)
+    if use_model:
+        replies = ctx.driver().batch(all_lines)
+        bad = set()
+        for ln, rep, im, h in zip(all_lines, replies, all_impl, owners):
+            if rep != im and id(h) not in bad:
+                bad.add(id(h))
+                ctx.disagree(f"branch grid, step `{ln[:160]}`: model `{rep[:300]}` != implementation `{im[:300]}`",
+                             {"part": "B", "line": ln, "model": rep, "impl": im, "history": h})
+    env.loop.run_until_complete(env.clear())
+
+
+def enforce_branch_coverage(ctx: Ctx):
+    missing = [b for b in REQUIRED_BRANCHES if not ctx.counts.get(b)]
+    ctx.extra["required_branches"] = {"listed": len(REQUIRED_BRANCHES), "never_taken": missing}
+    if missing and not (ctx.failures or ctx.disagreements or ctx.broken):
+        raise InfraError("coverage lost: these branches of the anchored code were never taken on the real code in this run: "
+                         + ", ".join(missing))
+
+
 THEOREM_KINDS = {
     "property clause (model, all histories/states)": ["is_allowed_spec", "emit_policy", "inbound_policy", "no_null_dest", "resolve_policy",
                                                       "enabled_flip_cause", "unopened_socket_untouched", "step_policy", "no_reentry",
@@ -1260,7 +1371,7 @@ THEOREM_KINDS = {
                                             "data_is_not_an_exit_message"],
     "change detector (Spec transcribes DataChecker)": ["could_be_utp_spec", "could_be_udp_tracker_spec", "could_be_dht_spec",
                                                        "could_be_bt_spec", "could_be_ipv8_spec"],
-    "corollary / frame property of a definition / not in the property text": ["other_flags_irrelevant", "gate_iff", "queued_rechecked",
+    "corollary / frame property of a definition / not in the property text": ["create_cannot_repoint_hop", "other_flags_irrelevant", "gate_iff", "queued_rechecked",
                                                                               "queue_bounded", "hop_is_create_source"],
 }
 
@@ -1295,8 +1406,11 @@ def run(ctx: Ctx):
             ctx.disagree(f"TunnelCommunity().exit_msg_ids = {sorted(env.declared_exit_ids)} but community.py declares {base_decl}",
                          {"part": "exit-ids", "runtime": sorted(env.declared_exit_ids), "declared": base_decl})
         run_opening_grid(ctx, env, ctx.model_ok)
+        run_branch_grid(ctx, env, ctx.model_ok)
         run_gate(ctx, env, ctx.model_ok, wide=ctx.thorough())
-        run_paths(ctx, env, ctx.scale(400, 20000), ctx.model_ok)
+        import os
+        run_paths(ctx, env, int(os.environ.get("C06_HISTORIES", ctx.scale(400, 20000))), ctx.model_ok)   # override: self-test of the grids only
+        enforce_branch_coverage(ctx)
     finally:
         env.close()
 
